@@ -35,7 +35,7 @@ fn pick(k: u8) -> AllowableErrors {
 }
 fn bit(k: u8) -> u8 { match k % 3 { 0 => 0x01, 1 => 0x02, _ => 0x04 } }
 
-//@K name=k_iter_config unwind=6 props=C13,C17
+//@K name=k_iter_config unwind=6 props=C13,C17 assembled=1
 pub fn h_iter_config() {
     let input: &[u8] = &[];
     // The real constructor builds a HashSet (RandomState -> OS randomness) and a VecDeque, which CBMC cannot get through
@@ -118,7 +118,7 @@ fn mk_pt(size: EBMLSize, data_start: usize) -> ProcessingTag<NoSpec> {
     }
 }
 
-//@K name=k_is_invalid_tag_size unwind=5 props=C05,C06,C13,C14
+//@K name=k_is_invalid_tag_size unwind=5 props=C05,C06,C13,C14 assembled=1
 pub fn h_is_invalid_tag_size() {
     // the size-containment test, for every cursor position (before, inside and BEYOND the declared end of an open master -
     // try_recover scans past such ends), every declared size < 2^56 and up to two open masters, known or unknown
